@@ -1,26 +1,17 @@
-------------------------- MODULE TraceInprocStream -------------------------
+-------------------------- MODULE TraceHttpStream --------------------------
 (***************************************************************************)
-(* B-conf: are the recorded executions of the real in-process stream       *)
-(* behaviours of the L1 model InprocStream?  The trace file holds the      *)
-(* API-level events of many runs of ONE stream kind (the kind is a         *)
-(* constant of the model).  A step of the trace specification is           *)
-(*   - an internal step of the model (ev' = NoEv), consuming nothing;      *)
-(*   - a step of the model that emits an API event (ev' # NoEv) which      *)
-(*     matches the next trace line in name AND arguments (message ids,     *)
-(*     operation ids, result kinds, metadata views), consuming it;         *)
-(*   - "Cancel": noted; the model's own Cancel step may follow at any later *)
-(*     point (the event is logged before the context is cancelled);        *)
-(*   - consumption of a line that has no counterpart in the model          *)
-(*     (scheduler observations, stream creation);                          *)
-(*   - "Begin": re-initialisation for the next run;                        *)
-(*   - SkipRun: give up on the current run and jump to the next "Begin",   *)
-(*     so that one run the model cannot explain does not hide the others.  *)
-(* A run is accepted when its "End" line is consumed through matching      *)
-(* steps; accepted run numbers are collected in TLC register 2 and written *)
-(* out by the POSTCONDITION.  A run that is not accepted is MODEL-DRIFT:    *)
-(* the code did something the model cannot do (never a verdict).           *)
+(* B-conf for httpgrpc streams: are the recorded executions of the real    *)
+(* HTTP client/server streams (over the in-memory transport and over       *)
+(* loopback TCP) behaviours of the L1 model HttpStream?  Same construction *)
+(* as TraceInprocStream: silent internal steps, API events matched with    *)
+(* their arguments, "Cancel" decoupled from the model's Cancel step, one   *)
+(* file with many runs of ONE stream kind, SkipRun so that one unexplained *)
+(* run does not hide the others, accepted runs in TLC register 2.          *)
+(* The model performs SetHeader / SendHeader in one step (the handler is   *)
+(* alone on its side of the wire): their "...Call" lines are consumed      *)
+(* without a step.                                                         *)
 (***************************************************************************)
-EXTENDS InprocStream, Json, IOUtils, SequencesExt
+EXTENDS HttpStream, Json, IOUtils, SequencesExt
 
 VARIABLES l, cp
 tvars == <<allvars, l, cp>>
@@ -35,15 +26,17 @@ ASSUME TLCSet(3, <<>>)
 Mark(r, p) == LET f == TLCGet(3) IN
   TLCSet(3, IF r \in DOMAIN f /\ f[r] >= p THEN f ELSE (r :> p) @@ f)
 
-Ignored == {"CNewStreamCall", "CNewStreamRet", "HStart", "Quiesce", "Winddown", "Census", "HCtxWait", "Panic"}
+Ignored == {"CNewStreamCall", "CNewStreamRet", "HStart", "Quiesce", "Winddown", "Census", "HCtxWait", "Panic",
+            "HSetHeaderCall", "HSendHeaderCall"}
 
 \* error categories a logged result is compatible with
 CatOK(e, res) ==
   \/ res.k # "err"
   \/ (res.st > 0 /\ e.cat = "hst")
-  \/ (res.code \in {1, 4} /\ e.cat = "ctx")
-  \/ (res.raw /\ e.cat \in {"ctx", "misuse"})
+  \/ (res.code \in {1, 4} /\ ~res.raw /\ e.cat = "ctx")
   \/ (res.code = 13 /\ res.st = 0 /\ e.cat = "lib")
+  \/ (res.code = 3 /\ res.st = 0 /\ e.cat = "inval")
+  \/ (res.raw /\ e.cat = "other")
 
 Match(e, t) ==
   /\ e.n = t.ev
@@ -53,12 +46,10 @@ Match(e, t) ==
        [] t.ev = "HRecvRet" -> e.k = t.res.k /\ (t.res.k = "nil" => e.m = t.msg) /\ CatOK(e, t.res)
        [] t.ev = "HSendCall" -> e.a = t.k
        [] t.ev = "HSendRet" -> e.a = t.k /\ e.k = t.res.k /\ CatOK(e, t.res)
-       [] t.ev \in {"HSetHeaderCall", "HSendHeaderCall"} -> e.a = t.i
        [] t.ev \in {"HSetHeaderRet", "HSendHeaderRet", "HSetTrailerRet"} -> e.a = t.i /\ ((e.k = "nil") = t.ok)
        [] t.ev = "CHeaderRet" -> ((e.k = "nil") = (t.res.k = "nil")) /\ (t.res.k = "nil" => e.v = t.hdr)
        [] t.ev = "CTrailerRet" -> e.v = t.trl
        [] t.ev = "HReturn" -> (e.a = 0) = (t.st.code = 0)
-       [] t.ev = "Cancel" -> e.a = (IF t.why = "cancel" THEN 1 ELSE 4)
        [] OTHER -> TRUE
 
 TInit == Init /\ l = 1 /\ cp = ""
@@ -71,9 +62,6 @@ Visible ==
   /\ Mark(Trace[l].run, l)
   /\ l' = l + 1 /\ cp' = cp
 
-\* "Cancel" is logged before the context is cancelled (and a cancellation
-\* reaches derived contexts asynchronously): the model's Cancel step may take
-\* place at any later point
 CancelLogged ==
   /\ l <= N /\ Trace[l].ev = "Cancel"
   /\ cp' = Trace[l].why /\ l' = l + 1 /\ UNCHANGED allvars
@@ -86,7 +74,6 @@ SkipLine ==
   /\ l <= N /\ Trace[l].ev \in Ignored
   /\ l' = l + 1 /\ UNCHANGED <<allvars, cp>>
 
-\* the run is over and every line of it was explained
 EndRun ==
   /\ l <= N /\ Trace[l].ev = "End"
   /\ TLCSet(2, TLCGet(2) \cup {Trace[l].run})
@@ -96,21 +83,21 @@ EndRun ==
 Begin ==
   /\ l <= N /\ Trace[l].ev = "Begin"
   /\ l' = l + 1 /\ cp' = ""
-  /\ ResetH(KindC, "inproc", <<>>, "running")
-  /\ req' = <<>> /\ reqClosed' = FALSE /\ resp' = <<>> /\ respClosed' = FALSE
-  /\ svrDone' = FALSE /\ svrExit' = FALSE /\ sprop' = FALSE
-  /\ sst' = "H" /\ shdr' = <<>> /\ strl' = <<>> /\ smu' = ""
-  /\ cst' = "H" /\ clast' = NoFrame /\ chdr' = <<>> /\ ctrl' = <<>> /\ respMu' = ""
-  /\ reqMu' = "" /\ sendClosed' = FALSE
+  /\ ResetH(KindC, "http", <<>>, "running")
+  /\ reqWire' = <<>> /\ reqEnd' = "open" /\ respHdr' = NoHdr /\ respWire' = <<>> /\ respEnd' = "open" /\ gone' = FALSE
+  /\ ready' = FALSE /\ hd' = <<>> /\ hdErr' = FALSE /\ done' = FALSE /\ rErr' = "none" /\ ctr' = NoTr
+  /\ wErr' = FALSE /\ pipe' = "open" /\ icancel' = FALSE
+  /\ rdpc' = "rt" /\ offer' = 0 /\ localErr' = "none"
+  /\ wMu' = ""
+  /\ srecvd' = 0 /\ headersSent' = FALSE /\ snap' = NoHdr /\ flushed' = FALSE /\ bodyShut' = FALSE /\ wbroken' = FALSE /\ writeFailed' = FALSE
+  /\ strl' = <<>> /\ shdr' = <<>>
   /\ pc' = [t \in Threads |-> "idle"]
-  /\ tmp' = [t \in Threads |-> NoFrame]
-  /\ probe' = FALSE /\ got' = 0 /\ fst' = 0
-  /\ bud' = [t \in Threads |-> CASE t = "cs" -> NS [] t = "cs2" -> NS [] t = "cr" -> NR [] OTHER -> NH]
+  /\ tmp' = [t \in Threads |-> 0]
+  /\ got' = 0
+  /\ bud' = [t \in Threads |-> CASE t = "cs" -> NS [] t = "cs2" -> 1 [] t = "cr" -> NR [] OTHER -> NH]
   /\ ncancel' = 0 /\ nhdr' = 0 /\ ntrl' = 0
-  /\ panicked' = FALSE /\ lviol' = {} /\ ev' = NoEv
+  /\ lviol' = {} /\ ev' = NoEv
 
-\* every trace line carries nb: the index of the next "Begin" line after it
-\* (N + 1 if there is none), computed by the orchestrator
 SkipRun ==
   /\ l <= N /\ Trace[l].ev # "Begin"
   /\ l' = Trace[l].nb /\ UNCHANGED <<allvars, cp>>
